@@ -876,7 +876,8 @@ class QueryBuilder(Selectable, Term):  # type:ignore[misc]
 
         conflict_query = " ON CONFLICT"
         if self._on_conflict_fields:
-            on_conflict_ctx = ctx.copy(with_alias=True)
+            # the conflict target names index columns of the insert table: bare, whatever the feeding SELECT needs
+            on_conflict_ctx = ctx.copy(with_alias=True, with_namespace=False)
             fields = [
                 f.get_sql(on_conflict_ctx)  # type:ignore[union-attr]
                 for f in self._on_conflict_fields
